@@ -329,6 +329,8 @@ class C14(Check):
         "reciprocal, so bit equality is not a property of the code)",
         "derivatives are compared with one-sided difference quotients of the double-valued function; points where the "
         "left and right quotients differ (a table kink inside the step) are skipped",
+        "no Rv-derivative is asserted on the first PVTG pressure line when its saturated Rv is 0 (corner of the guided "
+        "interpolation where Rv/Rv_sat is 0/0)",
         "link-time placeholders for the CO2/H2 property tables (empty .inc files in this sandbox) are never read",
     ]
     EXAMPLES = {"quick": 45, "thorough": 1500}
@@ -565,6 +567,11 @@ class C14(Check):
         qs.append(Q(ph, MU, reg, p2, r2, "beyond"))
         pmax = max(max(PS), max(max(y) for y in Y) if oil else 0.0)
         for q in qs[n0:]:
+            if not oil and RS[0] == 0.0 and q.p == X[0] and q.fn in (INVB, MU):
+                # The guided (RightExtreme) interpolation scales its shift with Rv / Rv_sat(p).  Where the saturated
+                # curve itself starts at Rv = 0 the point (p0, 0) is a corner at which that ratio is 0/0: the
+                # function has no slope in the Rv direction there, so no derivative is asserted.
+                q.ad_r = False
             q.hr = HREL * max(abs(q.r), 0.05 * rscale) if q.ad_r else 0.0
             q.pmax, q.rmax = pmax, rscale
 
@@ -632,6 +639,18 @@ class C14(Check):
         # sample points, the distance being bounded by a multiple of the table extent (extrapolated points, shifted
         # lines of the guided 2-D interpolation)
         mag = abs(vd) + 16 * (abs(dp) * max(q.p, q.pmax) + abs(dr) * max(abs(q.r), q.rmax))
+        comp = {MU: INVB, SAT_MU: SAT_INVB, C_MU: C_INVB}.get(q.fn)
+        if comp is not None and vd != 0.0:
+            # the viscosity is returned as the ratio a/c of the interpolants a = 1/B and c = 1/(B mu); its own
+            # derivatives say nothing about the size of the terms inside a and c (a constant viscosity has slope 0
+            # while a and c are extrapolated with large cancelling terms).  The companion query gives a and its
+            # derivatives; c = a/mu, so |dc|/c <= |da|/a + |dmu|/mu: relative term size of mu <= 2 rel(a) + rel(mu)
+            cq = byq.get((q.ph, comp, q.reg, q.p, q.r))
+            if isinstance(cq, list):
+                ca, _, cdp, cdr = [hexf(x) for x in cq[:4]]
+                if ca != 0.0 and all(map(math.isfinite, (ca, cdp, cdr))):
+                    maga = abs(ca) + 16 * (abs(cdp) * max(q.p, q.pmax) + abs(cdr) * max(abs(q.r), q.rmax))
+                    mag = abs(vd) * (2 * maga / abs(ca) + mag / abs(vd))
         # 1e-11: the Evaluation path divides by multiplying with a reciprocal (1 ulp per division), a handful of
         # operations, relative to mag (cancellation covered)
         if abs(vd - va) > 1e-11 * mag + 1e-300:
